@@ -32,7 +32,8 @@ fn is_snake(s: &str) -> bool {
 
 pub fn class_of(id: &str, variant: bool) -> &'static str {
     if !id.is_ascii() {
-        return "non-ascii";
+        // a non-ASCII letter with a lower-case mapping is its own class: serde maps case in ASCII only
+        return if id.chars().any(|c| !c.is_ascii() && c.is_uppercase()) { "non-ascii-upper" } else { "non-ascii" };
     }
     let letters = id.chars().filter(|c| c.is_ascii_alphabetic()).count();
     if letters > 0 && id.to_ascii_uppercase() == id {
@@ -138,7 +139,7 @@ fn typeshare_names(rule: &str, ids: &[String], variant: bool, rep: &mut Report) 
 }
 
 fn all_identifiers(max_len: usize) -> Vec<String> {
-    let alpha = ['a', 'B', '7', '_', 'é'];
+    let alpha = ['a', 'B', '7', '_', 'é', 'É'];
     let mut out = vec![];
     let mut cur: Vec<String> = vec![String::new()];
     for _ in 0..max_len {
@@ -323,7 +324,7 @@ pub fn run(ctx: &Ctx) -> (Spec, Report) {
     let spec = Spec {
         level: "exploration",
         rule: format!(
-            "every valid Rust identifier of length <= {max_len} over the class representatives {{a, B, 7, _, é}} ({} identifiers) x 8 rename_all rules + an unknown rule x {{field, variant}} position, exhaustively; plus registry-harvested real-world identifiers and seeded random identifiers of length 8-24; typeshare's name is read back from generated TypeScript (parser::parse -> TypeScript backend -> TS parser), the oracle is serde_derive 1.0.214's case.rs; distinct = (position, rule, identifier class, length) with serde name != identifier",
+            "every valid Rust identifier of length <= {max_len} over the class representatives {{a, B, 7, _, é, É}} ({} identifiers) x 8 rename_all rules + an unknown rule x {{field, variant}} position, exhaustively; plus registry-harvested real-world identifiers and seeded random identifiers of length 8-24; typeshare's name is read back from generated TypeScript (parser::parse -> TypeScript backend -> TS parser), the oracle is serde_derive 1.0.214's case.rs; distinct = (position, rule, identifier class, length) with serde name != identifier",
             ids.len()
         ),
         assumptions: vec![
